@@ -12,12 +12,14 @@ def rnd_yield(rng):
     return round(rng.uniform(5, 120), rng.choice([0, 1, 3]))
 
 
-def gen_spec(rng, max_channels=3, max_samples=3, max_bins=4, want=None, simple=False, avoid=()):
+def gen_spec(rng, max_channels=3, max_samples=3, max_bins=4, want=None, simple=False, avoid=(), cross_channel_stat=False):
     """returns (spec, info).  `want`: optional set of modifier types that must appear; `avoid`: systematic names / modifier types never used
+    `cross_channel_stat`: allow one MC-statistical name shared by several channels (only for the checks of the tensor engine: the XML
+    format and the sample-splitting rewrites of other checks presuppose one staterror name per channel).
     (parameter sets are created by modifier type — histosys, lumi, normfactor, normsys, shapefactor, shapesys, staterror — then by name, so
     avoiding SYS_POOL and 'lumi' puts the Poisson-constrained shapesys block *first* in the auxiliary data)."""
     nch = rng.randint(1, max_channels)
-    gap_layout = (not simple) and max_channels >= 3 and rng.random() < 0.12
+    gap_layout = cross_channel_stat and (not simple) and max_channels >= 3 and rng.random() < 0.12
     if gap_layout: nch = 3
     chan_names = rng.sample(['SR', 'CR1', 'CR2', 'VR', 'A_ch'], nch)
     channels = []
@@ -26,7 +28,7 @@ def gen_spec(rng, max_channels=3, max_samples=3, max_bins=4, want=None, simple=F
     # one MC-statistical name shared by several channels: declared there by one and the same sample (construction refuses declaring
     # samples whose channel sets differ); one parameter per bin of every declaring channel, and channels that do not declare it may lie
     # between them in the configuration's channel order
-    shared_stat = set(rng.sample(chan_names, rng.randint(2, nch))) if (nch >= 2 and not simple and rng.random() < 0.25) else set()
+    shared_stat = set(rng.sample(chan_names, rng.randint(2, nch))) if (cross_channel_stat and nch >= 2 and not simple and rng.random() < 0.25) else set()
     if gap_layout: shared_stat = {min(chan_names), max(chan_names)}       # the channel that does not declare it sorts between the two that do
     shared_sample = rng.choice(SAMPLE_POOL[1:])
     for cname in chan_names:
@@ -106,7 +108,7 @@ def gen_spec(rng, max_channels=3, max_samples=3, max_bins=4, want=None, simple=F
             parameters[-1]['fixed'] = True
     spec = {'channels': channels, 'parameters': parameters}
     if want and not (set(want) <= used_types):
-        return gen_spec(rng, max_channels, max_samples, max_bins, want, simple, avoid)
+        return gen_spec(rng, max_channels, max_samples, max_bins, want, simple, avoid, cross_channel_stat)
     return spec, {'types': sorted(used_types), 'nch': nch}
 
 
